@@ -184,6 +184,9 @@ impl LangInterpreter for French {
                 b.marker = marker;
                 b.freeze();
             }
+        } else if matches!(status, Err(Error::Incomplete)) && blocked.contains(Excludable::DEUX) {
+            // "et" after "dix": the units stay excluded ("dix et un" is not "onze")
+            b.flags = blocked.bits()
         } else {
             b.flags = 0
         }
